@@ -61,6 +61,9 @@ def rv(c):
     return r
 
 
+POLY_NORMALISE = True
+
+
 class Engine:
     MAX_DECISIONS = 400
 
@@ -83,6 +86,8 @@ class Engine:
         self.trig_atoms = []   # (angle term, cos var, sin var) of fresh trig pairs
         self.exp_atoms = []    # (argument SV, exp var)
         self.keep = []         # keep z3 refs alive (ids are reused otherwise)
+        self.sqrt_rad = {}     # sqrt atom id -> (numerator term, denominator term or None) of its radicand
+        self.atom_cache = {}
 
     def fresh(self, name, sort='real'):
         self.n += 1
@@ -652,10 +657,26 @@ class SV:
             ch = self.n.children()
             if len(ch) == 2 and ch[0].eq(ch[1]):
                 return abs(SV(t=ch[0]))
-        if not (_syn_nonneg(self.n) and (self.d is None or _den_nonneg(self.d))) and self < 0:
-            return SV(float('nan'))
         st = z3.simplify(self.t)
         key = ('sqrt', st.get_id())
+        if key in E.memo and E.memo[key][1] is None:
+            return E.memo[key][0]
+        # perfect squares (verified by exact polynomial arithmetic): sqrt(q^2 / d^2) = |q| / |d|
+        try:
+            from .poly import perfect_square_root
+            full = self.n if self.d is None else self.n * self.d.term()
+            if _term_size(full, 3000) < 3000:
+                q = perfect_square_root(full)
+                if q is not None:
+                    r = abs(SV(t=q))
+                    if self.d is not None:
+                        r = r / abs(SV(t=self.d.term()))
+                    E.memo[key] = (r, None)
+                    return r
+        except z3.Z3Exception:
+            pass
+        if not (_syn_nonneg(self.n) and (self.d is None or _den_nonneg(self.d))) and self < 0:
+            return SV(float('nan'))
         if key in E.memo:
             return E.memo[key][0]
         # canonical (sum-of-monomials) key: the same polynomial written differently shares its square root atom
@@ -677,6 +698,7 @@ class SV:
         E.memo[key] = (r, st)
         if key2 is not None:
             E.memo[key2] = (r, st)
+        E.sqrt_rad[v.get_id()] = (_toreal(self.n), None if self.d is None else self.d.term())
         E.nonneg.add(v.get_id())
         E.keep.append(v)
         return r
@@ -780,6 +802,41 @@ class SV:
         return SV(0.0)
 
     # -- comparisons (division-free atoms)
+    @staticmethod
+    def _atom(zop, ta, tb):
+        """the atom  ta <zop> tb;  decided concretely when exact polynomial arithmetic (with v^2 = radicand for the square-root
+        atoms) reduces ta - tb to a constant"""
+        key = (zop, ta.get_id(), tb.get_id())
+        hit = E.atom_cache.get(key)
+        if hit is not None:
+            return hit
+        res = None
+        if POLY_NORMALISE and _term_size(ta, 2500) + _term_size(tb, 2500) < 2500:
+            try:
+                from . import poly
+                atoms = {}
+                p = poly.from_term(ta, atoms).add(poly.from_term(tb, atoms), -1)
+                if E.sqrt_rad and not p.is_zero():
+                    rad = {}
+                    present = {i for m in p.c for i, _ in m}
+                    for vid, (n, d) in E.sqrt_rad.items():
+                        if vid in present:
+                            rad[vid] = (poly.from_term(n, atoms), None if d is None else poly.from_term(d, atoms))
+                    if rad:
+                        p = poly.reduce_squares(p, rad)
+                if p.is_zero():
+                    res = bool(zop(0, 0))
+                elif len(p.c) == 1 and () in p.c:
+                    res = bool(zop(p.c[()], 0))
+            except poly.TooBig:
+                res = None
+        if res is None:
+            res = SymBool(zop(ta, tb))
+        E.atom_cache[key] = res
+        E.keep.append(ta)
+        E.keep.append(tb)
+        return res
+
     def _cmp(self, o, op, zop):
         if isinstance(o, np.ndarray) and o.ndim > 0:
             return NotImplemented
@@ -800,7 +857,10 @@ class SV:
             return bool(op(0.0, o.c))
         a, b = self, o
         if a.d is None and b.d is None:
-            return SymBool(zop(a.num(), b.num()))
+            an, bn = a.num(), b.num()
+            if an.sort().kind() == z3.Z3_REAL_SORT and bn.sort().kind() == z3.Z3_REAL_SORT:
+                return SV._atom(zop, an, bn)
+            return SymBool(zop(an, bn))
         ad = a.d or Den()
         bd = b.d or Den()
         if op in (_eq, _ne):
@@ -810,7 +870,7 @@ class SV:
             qa, qb = L.quotient_term(ad), L.quotient_term(bd)
             ta = _toreal(a.num()) if qa is None else _toreal(a.num()) * qa
             tb = _toreal(b.num()) if qb is None else _toreal(b.num()) * qb
-            return SymBool(zop(ta, tb))
+            return SV._atom(zop, ta, tb)
         L = ad.lcm(bd)
         qa, qb = L.quotient_term(ad), L.quotient_term(bd)
         ta = _toreal(a.num()) if qa is None else _toreal(a.num()) * qa
@@ -822,10 +882,10 @@ class SV:
             for k, (t, p) in L.f.items():
                 if p % 2 == 1 and not (z3.is_rational_value(t) and t.as_fraction() > 0) and E.signs.get(k) != 1:
                     odd = t if odd is None else odd * t
-            return SymBool(zop(ta * odd, tb * odd))
+            return SV._atom(zop, ta * odd, tb * odd)
         if sk > 0:
-            return SymBool(zop(ta, tb))
-        return SymBool(zop(tb, ta))
+            return SV._atom(zop, ta, tb)
+        return SV._atom(zop, tb, ta)
 
     def __lt__(self, o):
         return self._cmp(o, _lt, _lt)
